@@ -15,6 +15,7 @@
 package msg
 
 import (
+	"errors"
 	"io"
 
 	jsonMsg "github.com/fatedier/golib/msg/json"
@@ -32,7 +33,12 @@ func init() {
 }
 
 func ReadMsg(c io.Reader) (msg Message, err error) {
-	return msgCtl.ReadMsg(c)
+	msg, err = msgCtl.ReadMsg(c)
+	if err == nil && msg == nil {
+		// A JSON "null" body makes the decoder return neither a message nor an error.
+		err = errors.New("message format error: null body")
+	}
+	return
 }
 
 func ReadMsgInto(c io.Reader, msg Message) (err error) {
